@@ -14,7 +14,7 @@ PROFILES["C07"] = dict(notw=[(0, 1), (0, 1), (1, 8)], ops=14, edge_types=False, 
                        pub_w=10, noise_w=1, clock_w=1)
 
 STAGES = ["accepted", "connected", "sub_types", "sub_all", "paused", "logger"]
-WAYS = ["disconnect", "fin", "rst", "midframe", "refused", "wfault"]
+WAYS = ["disconnect", "fin", "rst", "midframe", "refused", "wfault", "vanish"]
 MID_KINDS = ["data", "subscribe", "disconnect", "connect_v2", "data_big"]
 T1, T2 = 1000, 1001
 
@@ -90,14 +90,26 @@ class DepartureRun(PubSubRun):
             r.open()
             r.stage = "refused"
             how = ch.choose("dep.refuse", ["dup_id", "bad_id", "dup_name"])
+            rlog = ch.flag("dep.refuse_logger", 1, 3)
+            rproto = ch.choose("dep.refuse_proto", ["v2v1", "v2v1", "v1"]) if how != "dup_name" else "v2v1"
             if how == "dup_id":
-                r.handshake("v2v1", req_id=inc.req_id, name=b"other")
+                r.handshake(rproto, req_id=inc.req_id, name=b"other", logger=rlog)
             elif how == "bad_id":
-                r.handshake("v2v1", req_id=ch.choose("dep.badid", [101, 200, -1, 150]), name=b"other")
+                r.handshake(rproto, req_id=ch.choose("dep.badid", [101, 200, -1, 150]), name=b"other", logger=rlog)
             else:
-                r.handshake("v2v1", req_id=60, name=inc.mname)
+                r.handshake("v2v1", req_id=60, name=inc.mname, logger=rlog)
             self.refused = (r, inc)
             self.t(f"{r.name} asks for a refused identity ({how}); incumbent {inc.name} id={inc.req_id}")
+        elif way == "vanish":
+            # a newcomer sends its connection request and is gone before the manager can acknowledge it
+            x = self.new_actor(f"x{len(self.actors)}")
+            x.open()
+            x.stage = "vanished"
+            x.handshake(ch.choose("dep.vproto", ["v2v1", "v1", "v2"]), req_id=ch.choose("dep.vid", [33, 33, 0]),
+                        logger=ch.flag("dep.vlogger", 1, 4), name=b"")
+            x.leave(ch.choose("dep.vway", ["rst", "fin"]))
+            self.t(f"{x.name} asks to connect and is gone before the acknowledgement")
+            a.leave("fin")
         elif way == "wfault":
             ms = a.sock.peer
             if k is None:
@@ -261,6 +273,13 @@ class DepartureRun(PubSubRun):
             self.publish(self.p, T1, dest=ch.weighted("dep.dest2", [(3, 0), (2, 30)]))
         if ch.flag("dep.pool", 1, 25) and not self.forced:
             self.pool_scenario()
+        # a newcomer asking for a dynamic id afterwards must get a sound one
+        dp = self.new_actor("dynprobe")
+        dp.protected = True
+        dp.open()
+        dp.handshake("v2v1", req_id=0, name=b"")
+        self.w.quiesce()
+        self.dynprobe = dp
         if self.refused:
             r, inc = self.refused
             # the incumbent must be undisturbed: a directed probe reaches it
@@ -348,6 +367,19 @@ class DepartureRun(PubSubRun):
                     res.add("C07", "reuse_refused", f"{r.name} reconnecting with id={a.vid} name={a.vname!r} right after "
                                                     f"{a.name} left ({a.stage}) was not acknowledged "
                                                     f"(closed={r.sock.peer.closed})")
+        dp = getattr(self, "dynprobe", None)
+        if dp is not None and dp.alive:
+            fr, _ = dp.received()
+            ids = [h.dest_mod_id for h, _p in fr if h.msg_type == C.MT_ACKNOWLEDGE and h.src_mod_id == 0]
+            if ids:
+                res.probes["dynamic_probe_checked"] += 1
+                if not (C.DYN_MOD_ID_START <= ids[0] < C.MAX_MODULES):
+                    res.add("C07", "dynamic_id_after_departure", f"after the departures a newcomer asking for a dynamic id "
+                                                                 f"was given {ids[0]}", sig="dynamic_id_after_departure")
+                held = [m.mod_id for m in model.conns.values() if m.alive and m.connected and m.conn != dp.conn]
+                if ids[0] in held:
+                    res.add("C07", "dynamic_id_after_departure", f"the dynamic id {ids[0]} given after the departures is "
+                                                                 f"held by a live module", sig="dynamic_id_in_use_after_departure")
         n = getattr(self, "pool_newcomer", None)
         if n is not None:
             ctl = [c for c in model.controls if c.conn == n.conn and c.kind == "connect"]
